@@ -155,7 +155,7 @@ def check(prop, tier, vseed, n_runs, batch_size, workers, profile_info):
     outdir = os.path.join(VERIF, 'replays')
     known = load_known()
     results, herrs, wall = run_batches(prop, vseed, tier, n_runs, batch_size, workers, outdir,
-                                       wall_limit=float(os.environ.get('DDSIM_BATCH_LIMIT', '900')))
+                                       wall_limit=float(os.environ.get('DDSIM_BATCH_LIMIT', '2400')))
     results.sort(key=lambda r: r.get('idx', -1))
     stats = collections.Counter()
     fs = collections.Counter()
